@@ -36,6 +36,7 @@ type Engine struct {
 	// function that is not in it and has no contract is a helper somebody extracted - it is
 	// executed as part of its caller (site assertions, ghost counters and loop ordinals carry over)
 	baseFuncs map[string]bool
+	baseGo    map[string]int // go statements executed per function under contract, as of the baseline
 }
 
 var repoPkgs = []string{"./internal/state", "./internal/storage", "./internal/spynode", "./internal/handlers", "./pkg/client"}
@@ -290,9 +291,18 @@ func (e *Engine) VerifyFunc(fn *ssa.Function, fc *FuncContract) (v *FnVerifier) 
 	o := v.addObl(st, "cover", "entry", "false", "precondition is satisfiable", fc.Serves, fn.Pos())
 	o.Cover = true
 	fr.run(st, args)
+	// what a spawned goroutine does is outside sequential reasoning: the go statements the function had
+	// when the baseline was recorded are listed as assumptions; one more than that means the contract
+	// no longer speaks about everything the function does in order
+	if e.baseGo != nil {
+		if base, ok := e.baseGo[fn.String()]; ok && v.goStmts > base {
+			v.errs = append(v.errs, fmt.Sprintf("%d go statement(s) where the baseline had %d: work moved into a goroutine is outside the contract", v.goStmts, base))
+		}
+	}
+	v.goCount = v.goStmts
 	// every site assertion must have matched at least one site
 	for _, as := range fc.Asserts {
-		if v.assertHits[as.Label] == 0 {
+		if v.assertHits[as.Label] == 0 && !as.IfAny {
 			v.errs = append(v.errs, fmt.Sprintf("assert %s: no site matches %q", as.Label, as.Site))
 		}
 	}
